@@ -258,7 +258,10 @@ def schemas(codes):
     body = fn_body(n3, "fmt", after="ZonefileFmt for Nsec3Salt<Octs>")
     one(r'^\s*p\.block\(\|p\|\s*\{\s*if\s+self\.as_slice\(\)\.is_empty\(\)\s*\{\s*p\.write_token\("-"\)\?;\s*\}\s*else\s*\{\s*p\.write_token\(base16::encode_display\(self\)\)\?;\s*\}\s*p\.write_comment\(format_args!\(', body, "Nsec3Salt ZonefileFmt")
     one(r"symbol\.into_char\(\)\s*==\s*Ok\('-'\)", n3, "Nsec3Salt::scan dash")
-    one(r"struct Converter\(base32::SymbolConverter,\s*usize\);", n3, "OwnerHash::scan converter")
+    body = n3[n3.index("impl<Octs> OwnerHash<Octs>"):]
+    body = fn_body(body, "scan")
+    one(r"base32::SymbolConverter::new\(\)", body, "OwnerHash::scan uses the Base 32 converter")
+    one(r"scanner\s*\.convert_token\(", body, "OwnerHash::scan reads one token")
     caa = strip_comments(read("src/rdata/caa.rs"))
     one(r'impl fmt::Display for CaaFlags\s*\{\s*fn fmt[^{]*\{\s*write!\(f,\s*"\{\}",\s*self\.0\)', caa, "CaaFlags Display")
     one(r"Ok\(CaaFlags\(u8::scan\(scanner\)\?\)\)", caa, "CaaFlags scan")
@@ -481,6 +484,11 @@ def build():
     def table(xs):
         return "[" + "; ".join("(%d%%N, %s)" % (v, coq_str(s)) for v, s in xs) + "]"
     codes = dict((m, v) for v, m in rts)
+    n3s = strip_comments(read("src/rdata/nsec3.rs"))
+    m = one(r"impl Nsec3Salt<\(\)>\s*\{\s*pub const MAX_LEN: usize = (\d+);", n3s, "Nsec3Salt::MAX_LEN")
+    defs.append(("nsec3_salt_max", "N", "%d%%N" % num(m.group(1))))
+    m = one(r"impl OwnerHash<\(\)>\s*\{\s*pub const MAX_LEN: usize = (\d+);", n3s, "OwnerHash::MAX_LEN")
+    defs.append(("nsec3_hash_max", "N", "%d%%N" % num(m.group(1))))
     ts, ipk, gws = schemas(codes)
     defs.append(("type_schemas", "list (N * (bool * (list (N * (N * list N)) * list N)))", ts))
     defs.append(("ipseckey_schema", "N * (bool * (list (N * (N * list N)) * list N))", ipk))
